@@ -1088,7 +1088,8 @@ class OrbitBase(TidalPyClass):
             # Change the orbital distance of the tidal host.
             if self.world_signature_to_index(world_signature, return_tidal_host=True) != 0:
                 log.warning('A tidal world is setting the stellar eccentricity for the tidal host.')
-            self.set_eccentricity(world_signature, eccentricity, set_stellar_orbit=True)
+            # The stellar eccentricity is a property of the tidal host's orbit around the star (see get_stellar_eccentricity).
+            self.set_eccentricity(self.tidal_host, eccentricity, set_stellar_orbit=True)
 
     # # Tidal World Getters
     def get_eccentricity(self, world_signature: WorldSignatureType, for_stellar_orbit: bool = False) -> 'FloatArray':
